@@ -593,6 +593,52 @@ def main():
             c.violation("C08:config:%s:%s" % (target, problem_class(target, prob)), "accepted package, options {%s}: %s" % (cfgs, prob),
                         {"config": r["cfg"], "target": target, "problem": prob, "model": r["model"]})
 
+    # ---- 3b. package layouts: types reached through two levels of imports (the top package does not list the lowest one), a diamond,
+    # generic / enum / union / alias definitions of the lowest package used by the middle one and only thereby by the top one
+    CORE = ("Point: !record\n  fields:\n    x: int\n    y: float\nColor: !enum\n  values: [red, green]\nMode: !flags\n  values: [a, b]\n"
+            "Box<T>: !record\n  fields:\n    v: T\n    n: T*\nNum: [int, float]\nPoints: Point*\nMaybe<T>: T?\nGrid: Point[2,2]\n")
+    GEO = ("Shape: !record\n  fields:\n    origin: Core.Point\n    color: Core.Color\n    mode: Core.Mode\n    boxed: Core.Box<Core.Point>\n    n: Core.Num\n"
+           "    pts: Core.Points\n    opt: Core.Maybe<Core.Color>\n    grid: Core.Grid\n  computedFields:\n    ox: origin.x\nShapes: Shape*\nTagged<T>: !record\n  fields:\n    t: T\n    b: Core.Box<T>\n")
+    STYLE = "Pen: !record\n  fields:\n    color: Core.Color\n    width: float\n    at: Core.Point?\n"
+    TOP = ("Canvas: !record\n  fields:\n    shapes: Geometry.Shapes\n    first: Geometry.Shape?\n    tagged: Geometry.Tagged<int>\n%s"
+           "Draw: !protocol\n  sequence:\n    canvas: Canvas\n    items: !stream\n      items: Geometry.Shape\n    tags: Geometry.Tagged<string>*\n")
+    layouts = {
+        "chain": {"core": ("Core", [], CORE), "geometry": ("Geometry", ["../core"], GEO), "model": ("Drawing", ["../geometry"], TOP % "")},
+        "diamond": {"core": ("Core", [], CORE), "geometry": ("Geometry", ["../core"], GEO), "style": ("Style", ["../core"], STYLE),
+                    "model": ("Drawing", ["../geometry", "../style"], TOP % "    pen: Style.Pen\n")},
+        "chain_and_direct": {"core": ("Core", [], CORE), "geometry": ("Geometry", ["../core"], GEO),
+                             "model": ("Drawing", ["../geometry", "../core"], TOP % "    p: Core.Point\n")},
+    }
+
+    def layout_work(arg):
+        name, pk = arg
+        root = os.path.join(sc, "layout-" + name)
+        for d, (ns, imports, model) in pk.items():
+            os.makedirs(os.path.join(root, d), exist_ok=True)
+            open(os.path.join(root, d, "_package.yml"), "w").write(pkg_yml(ns, FULL, imports) if d == "model" else
+                                                                   "namespace: %s\n%s" % (ns, "imports:\n" + "".join("  - %s\n" % i for i in imports) if imports else ""))
+            open(os.path.join(root, d, "m.yml"), "w").write(model)
+        rc, txt, panic = generate(yardl, os.path.join(root, "model"), home)
+        probs = inspect_generated(root, FULL, expect_namespaces=[v[0] for v in pk.values()]) if rc == 0 else []
+        shutil.rmtree(root, ignore_errors=True)
+        return name, rc, panic, txt[-600:], probs
+    for name, rc, panic, txt, probs in pmap(layout_work, sorted(layouts.items()), jobs=len(layouts)):
+        c.count(("layout", name), nontrivial=True)
+        c.cov["traces_validated_against_impl"] += 1
+        if rc != 0:
+            if panic:
+                c.violation("C08:layout:%s:generate:panic" % name, "a package layout with nested imports makes `yardl generate` crash: %s" % txt[-300:], {"layout": name, "output": txt})
+            else:
+                raise Inconclusive("the import layout '%s' is meant to be valid but is rejected: %s" % (name, txt[-400:]))
+            continue
+        seen = set()
+        for target, prob in probs:
+            if target in seen:
+                continue
+            seen.add(target)
+            c.violation("C08:layout:%s:%s:%s" % (name, target, problem_class(target, prob)), "accepted package with nested imports (%s): %s" % (name, prob),
+                        {"layout": name, "target": target, "problem": prob, "packages": {d: v[2] for d, v in layouts[name].items()}})
+
     # ---- 4. yardl init scaffolds
     def init_work(name):
         root = os.path.join(sc, "init%d" % abs(hash(name)))
